@@ -4,6 +4,6 @@ name=$1; id=${2:-${name%-*}}
 cd /repo || exit 2
 [ -z "$(git status --porcelain)" ] || { echo "/repo dirty"; exit 2; }
 git apply /verif/seeded/$name/patch.diff || exit 2
-out=$(cd /verif && ./check $id quick 2>&1); rc=$?
+out=$(cd /verif && VERIF_EVIDENCE_DIR=/verif/target/side-evidence ./check $id quick 2>&1); rc=$?
 git checkout -q -- .
 echo "$name vs $id rc=$rc $(echo "$out" | grep -E "FAILURE|INCONCLUSIVE|^OK" | head -1 | cut -c1-200)"
